@@ -981,20 +981,14 @@ def load_corpus():
 
 
 def corpus_cases():
-    """corpus lines: `fn <json meta> | <driver line>` or `neg <json>`"""
+    """corpus lines: `fn <json meta> | <driver line>` or `neg <json scenario>`"""
     fn, neg = [], []
     for l in load_corpus():
         if l.startswith("fn "):
             meta, line = l[3:].split(" | ", 1)
-            m = json.loads(meta)
-            m = {k: (bytes.fromhex(v[4:]) if isinstance(v, str) and v.startswith("hex:") else v) for k, v in m.items()}
-            fn.append({"line": line, "kind": "corpus", "model": True, "meta": m})
+            fn.append({"line": line, "kind": "corpus", "model": True, "meta": meta_from_json(json.loads(meta))})
         elif l.startswith("neg "):
-            d = json.loads(l[4:])
-            d = {k: (bytes.fromhex(v[4:]) if isinstance(v, str) and v.startswith("hex:") else v) for k, v in d.items()}
-            if d.get("cb"):
-                d["cb"] = tuple(bytes.fromhex(x[4:]) for x in d["cb"])
-            neg.append(Neg(**d))
+            neg.append(neg_from_json(json.loads(l[4:])))
     return fn, neg
 
 
@@ -1081,15 +1075,24 @@ def run(chk):
 
     cfn, cneg = corpus_cases()
     fn = cfn + gen_fn_cases(chk)
-    lines = [c["line"] for c in fn]
-    impl = vlib.run_parallel(exe, lines, timeout=600, per_case_timeout=120)
-    mlines = [c["line"] for c in fn if c["model"]]
+    # cases that make an unrepaired tree iterate 2^32 times run one per process with a short time limit
+    risky = [c for c in fn if c["kind"] == "scram-iter-overflow"]
+    calm = [c for c in fn if c["kind"] != "scram-iter-overflow"]
+    fn = calm + risky
+    impl = vlib.run_parallel(exe, [c["line"] for c in calm], timeout=300, per_case_timeout=60)
+    impl += vlib.run_parallel(exe, [c["line"] for c in risky], nshards=min(vlib.NCPU, max(1, len(risky))), batch=1, timeout=10, per_case_timeout=10)
+    mlines = [c["line"] for c in calm if c["model"]]
     # interleave cheap and expensive cases over the shards
     order = sorted(range(len(mlines)), key=lambda i: (i * 7919) % max(1, len(mlines)))
     mres = model_run([mlines[i] for i in order])
     mout = {}
     for pos, i in enumerate(order):
         mout[mlines[i]] = mres[pos]
+    if mexe is not None and risky:
+        rl = [c["line"] for c in risky if c["model"]]
+        for ln, o in zip(rl, vlib.run_parallel(mexe, rl, nshards=min(vlib.NCPU, len(rl)), batch=1, timeout=10, per_case_timeout=10)):
+            mout[ln] = o
+    mlines += [c["line"] for c in risky if c["model"]]
     seen = set()
     for c, out in zip(fn, impl):
         chk.evaluations += 1
@@ -1109,6 +1112,8 @@ def run(chk):
                 canon = c["line"][0] + " ABORT"
             if out and out.startswith("D ") and (" rng-" in out):
                 canon = out.split(" rng-")[0]
+            if c["kind"] == "scram-iter-overflow" and mo and mo.startswith("CRASH") and canon and canon.startswith("CRASH TIMEOUT"):
+                mo = canon      # 2^32 - 1 iterations: neither side answers in the time allowed
             if mo != canon:
                 chk.disagree("function", c["line"], out, mo)
         if chk.evaluations % 397 == 0:
@@ -1143,6 +1148,11 @@ def run(chk):
         "refused": sum(1 for o in impl if o and o.endswith("null")),
         "crash": sum(1 for o in impl if o and o.startswith("CRASH"))}
     chk.extra["model_cases"] = len(mlines)
+    cls = {}
+    for f in chk.failures:
+        k = f["stream"] + ": " + re.sub(r"b'[^']*'|b\"[^\"]*\"|\d+", "#", f["what"])[:110]
+        cls[k] = cls.get(k, 0) + 1
+    chk.extra["failure_classes"] = cls
 
 
 def replay(path):
